@@ -62,15 +62,33 @@ Step ==
         ELSE IF k <= 12 /\ sp # {} /\ ~deep THEN DoMove(sp)
         ELSE ~deep /\ DoMove(lm)
 
+\* MODE "all": the complete tree of moves and null moves to nesting depth MaxDepth (used with the model
+\* checker, not the simulator); every leaf prints its path followed by the take-backs to the root.
+StepAll ==
+    /\ Len(stack) < MaxDepth
+    /\ \/ \E m \in Legal(pos) : Move(m) /\ Log("make", PackMove(m), UciOf(m))
+       \/ Null /\ Log("null", -1, "")
+
+RECURSIVE Unwind(_, _)
+Unwind(st, i) ==
+    IF i = 0 THEN <<>>
+    ELSE <<Obs(IF st[i].mv.kind = -1 THEN "undonull" ELSE "undo", -1, "", st[i].pos, SubSeq(st, 1, i - 1))>>
+         \o Unwind(st, i - 1)
+
 Finish == /\ ~done /\ done' = TRUE /\ UNCHANGED <<pos, stack, key, acc, views, hist>>
 
 \* A behaviour is finished after Steps steps or when no step is possible (mate, stalemate).
 Next == /\ ~done
-        /\ IF Len(hist) > Steps \/ (Legal(pos) = {} /\ (MODE = "game" \/ stack = <<>>))
+        /\ IF MODE = "all" THEN StepAll
+           ELSE IF Len(hist) > Steps \/ (Legal(pos) = {} /\ (MODE = "game" \/ stack = <<>>))
            THEN Finish ELSE Step
 
 Spec == Init /\ [][Next]_ggvars
 
 \* One line per finished behaviour.
-Emit == done => PrintT("@@GEN " \o ToJson([steps |-> hist]))
+Emit ==
+    IF MODE = "all"
+    THEN (Len(stack) = MaxDepth \/ (Legal(pos) = {} /\ InCheck(pos))) =>
+             PrintT("@@GEN " \o ToJson([steps |-> hist \o Unwind(stack, Len(stack))]))
+    ELSE done => PrintT("@@GEN " \o ToJson([steps |-> hist]))
 =============================================================================
